@@ -226,6 +226,8 @@ func propC14(c *Ctx) {
 	defer func() {
 		rti := c.Rule("throw-identity", "a Go error that already is a *RuntimeError re-enters the VM as the same object: an error raised by a script function keeps its identity when the function is called from Go", 1)
 		ruleThrowIdentity(c, rti)
+		rce := c.Rule("callback-err", "a library callback that records the error of the script function keeps the first error (no further call once one is recorded) in a variable local to the call", 4)
+		ruleCallbackErr(c, rce)
 	}()
 	ri := c.Rule("child-init", "every VM field that run-time code reads and Run's prologue does not initialise is stored by the pool's acquire on every path (release zeroes the whole VM), and every Bytecode field run-time code reads is stored into the child's private Bytecode", 6)
 	vf := getVMFacts(c, ri)
@@ -594,6 +596,8 @@ func propC09(c *Ctx) {
 		ruleLockFirst(c, rlf, vf)
 		rao := c.Rule("aborted-own", "Aborted reports the abort flag of the VM it is called on, not another VM's", 1)
 		ruleAbortedOwn(c, rao, vf)
+		rce := c.Rule("callback-err", "the variable in which a library callback records an abort / error of the script function is local to the call: an aborted run leaves nothing behind that fails later calls", 4)
+		ruleCallbackErr(c, rce)
 	}()
 	// poll: an atomic Load of abort in a block that lies on a cycle and dominates the dispatch
 	{
@@ -841,11 +845,63 @@ func propC09(c *Ctx) {
 			}
 			c.Check(rcb, fnName(fn)+" | time.Sleep in a loop", l.Pos(ins.Pos()), polls, "the loop tests Aborted()", "a sleeping loop never tests the abort flag: Abort does not stop the callback")
 		})
+		// once the abort flag was seen set, the callback does not sleep again: no
+		// time.Sleep is reachable from the "aborted" outcome of an Aborted() test
+		for _, b := range fn.Blocks {
+			if len(b.Instrs) == 0 {
+				continue
+			}
+			iff, ok := b.Instrs[len(b.Instrs)-1].(*ssa.If)
+			if !ok {
+				continue
+			}
+			cl, ok := iff.Cond.(*ssa.Call)
+			if !ok || cl.Call.StaticCallee() != aborted {
+				continue
+			}
+			first := b.Succs[0].Instrs[0]
+			isSleep := func(x ssa.Instruction) bool {
+				ci, ok := x.(ssa.CallInstruction)
+				if !ok {
+					return false
+				}
+				f := ci.Common().StaticCallee()
+				return f != nil && f.Pkg != nil && f.Pkg.Pkg.Path() == "time" && f.Name() == "Sleep"
+			}
+			bad, unreachable := mustPassBefore(first, isReturn, isSleep)
+			if isSleep(first) {
+				bad, unreachable = first, false
+			}
+			where := ""
+			if bad != nil {
+				where = l.Pos(bad.Pos())
+			}
+			c.Check(rcb, fnName(fn)+" | after the abort flag was seen", l.Pos(iff.Pos()), unreachable, "the function returns without sleeping again",
+				"after Aborted() returned true the callback can still reach time.Sleep (at "+where+"): the abort is honoured only after the remaining duration has been slept (a 24 h sleep cannot be aborted for a day)")
+		}
 	}
 }
 
 func rulePoolLock(c *Ctx, rule string, pf *poolFacts) {
 	l := c.L
+	// the pool's abort calls Abort on each registered child WHILE it holds the
+	// registry lock: between an unlock and the call, the child can be released to
+	// the sync.Pool and handed to another root VM, whose callback is then aborted
+	if abortM := l.Method(modPath, "VM", "Abort"); abortM != nil && pf.abort != nil {
+		eachInstrDeep(pf.abort, 1, func(ins ssa.Instruction) {
+			ci, ok := ins.(ssa.CallInstruction)
+			if !ok || ci.Common().StaticCallee() != abortM {
+				return
+			}
+			fn := ins.Parent()
+			if !l.poolDomain()[fn] || len(fn.Params) == 0 {
+				return
+			}
+			locked := poolLockedAt(l, pf, fn, fn.Params[0], ins, 0)
+			c.Check(rule, fnName(fn)+" | Abort of a registered child", l.Pos(ins.Pos()), locked, "called while the registry lock is held",
+				"the pool aborts a registered child after releasing the registry lock: in between the child can be released to the sync.Pool and acquired by ANOTHER root VM, whose callback is then aborted although that VM never was")
+		})
+	}
 	for _, fn := range l.RepoFuncs(func(pp string) bool { return pp == modPath }) {
 		for _, acc := range fieldAccesses([]*ssa.Function{fn}, modPath, "vmPool", pf.fVMs) {
 			if acc.Addr == nil {
